@@ -577,6 +577,8 @@ def digests(prop_id: str, first: int, count: int, jobs_n: int) -> int:
     cases = list(plan.get("cases", []))
     seed = int(os.environ.get("VERIF_SEED", "0") or 0)
     jobs = []
+    if first < 0:  # start a little before the seeded region: the last enumerated cases and then seeded runs
+        first = max(0, len(cases) - count // 8)
     for idx in range(first, first + count):
         params = cases[idx] if idx < len(cases) else mod.random_params(idx - len(cases), "quick")
         jobs.append((idx, params, derive_seed(seed, prop_id, idx)))
